@@ -628,6 +628,22 @@ def run(ck):
         "(RFC 6455 5.3 asks for a fresh key per frame); wire format and delivery are unaffected.",
     ]
     broken = ck.coq_props()
+    # the JOIN of the sender half (Props/C01.v) with the receiver half (Props/C02.v): Props/C01Join.v
+    _prev_assumptions, _prev_closure = dict(ck.assumptions), list(getattr(ck, "closure_files", []))
+    broken = ck.coq_props("Props/C01Join.v")          # obligations accumulate; returns every broken one so far
+    _prev_assumptions.update(ck.assumptions)
+    ck.assumptions = _prev_assumptions
+    ck.closure_files = _prev_closure + [f for f in ck.closure_files if f not in _prev_closure]
+    ck.extra_tb += [
+        "join (Props/C01Join.v): theorems about the two MODELS (Model/WsSend.v send path, Model/WsRecv.v receive loop) "
+        "and the two declarative references; that the models are the code is the correspondence of C01 (send) and C02 "
+        "(receive) plus the end-to-end runs here",
+        "join hypotheses: masking keys are 4 octets, payloads are octets, text payloads are complete well-formed UTF-8 "
+        "when the receiver validates (needed: Example C01_join_text_hypothesis_needed), no permessage-compress negotiated, "
+        "receiver accepts the sender's masking, messages within the receiver's size limits, call sequence accepted by "
+        "spec_run and ending at a frame boundary; default_recv in Proofs/WsJoinProofs.v transcribes "
+        "resetProtocolOptions of both factories (not regenerated from the source)",
+    ]
     ck.log(f"property file built: {len(ck.obligations)} obligations, broken: {broken}")
     ok, out = vlib.coq_make(["Model/WsSendRun.vo"])
     if not ok:
